@@ -40,6 +40,9 @@ structure CMap where
   maxEntries : Nat
   keyType : String
   valType : String
+  /-- tag of the record the key / value type names (`"struct tuples_key"` ↦ `"tuples_key"`), `""` if it is not a record -/
+  keyRec : String
+  valRec : String
 deriving Repr, Inhabited
 
 /-- `common/consts/ebpf_sync_spec.json`. -/
